@@ -170,9 +170,26 @@ fn oracle(c: &Case, st: &mut Stats) -> Result<(), String> {
       }
     }
   }
-  // (b) no value carried in the report decrypts the payload
-  {
-    let (r, payload, ct) = &reps[0];
+  // (b) no value carried in the report - and no trivial constant - decrypts the payload
+  for (r, payload, ct) in reps.iter() {
+    let cmp = payload.len().min(32);
+    if cmp >= 12 && ct.len() >= cmp {
+      let head = Ciphertext::from_bytes(&ct[..cmp]);
+      for k in [[0u8; 16], [0xFFu8; 16], [1u8; 16]] {
+        st.evals(1);
+        if head.decrypt(&k, "star_encrypt")[..] == payload[..cmp] {
+          return Err(format!("the payload decrypts under the constant key {}: report {}", hex::encode(k), hex::encode(r.to_bytes())));
+        }
+      }
+      for v in [[0u8; 32], [0xFFu8; 32]] {
+        let k = starx::ske_key(&v, &c.epoch);
+        if head.decrypt(&k, "star_encrypt")[..] == payload[..cmp] {
+          return Err(format!("the payload decrypts under the key derived from a constant 32-byte value: report {}", hex::encode(r.to_bytes())));
+        }
+      }
+    }
+  }
+  for (r, payload, ct) in reps.iter().take(2) {
     let b = r.to_bytes();
     let cmp = payload.len().min(32);
     if cmp >= 12 {
